@@ -38,6 +38,10 @@ PROPS = {
              n=(2000, 50000), alphabets=['a', 'ab', 'abc', 'ab.-', 'meta', 'digits']),
     'C15': P(flags=casegen.FLAGS, force=['c'], lang=False, stages=['out'], theorems=('C15.v', None), n=(2500, 60000)),
     'C16': P(flags=['r', 'd', 'w', 's', 'g'], lang=True, stages=['trie', 'min', 'expr', 'out'], theorems=('C16.v', None), n=(1500, 40000)),
+    'C10': P(flags=casegen.FLAGS, lang=False, stages=['norm', 'clusters_r', 'min', 'expr', 'out'], theorems=('C10.v', None), n=(400, 6000), runner='c10'),
+    'C12': P(flags=casegen.FLAGS, lang=False, stages=[], theorems=('C12.v', None), n=(160, 4000), runner='c12'),
+    'C14': P(flags=casegen.FLAGS, lang=False, stages=[], theorems=('C14.v', None), n=(600, 20000), runner='c14'),
+    'C17': P(flags=[], lang=False, stages=[], theorems=('C17.v', None), n=(600, 20000), runner='c17'),
 }
 
 # ------------------------------------------------------------------------------------------
@@ -423,6 +427,91 @@ def theorem_status(pid, spec, st):
         res = {n: {'ok': False, 'statement': '', 'assumptions': 'not built'} for n in names}
     return names, built, res
 
+def correspondence(pid, spec, res, st, allc, impl=None):
+    broken = res['broken']
+    if impl is None:
+        impl = runner.run_impl(allc)
+    model = {}
+    if st['driver_ok']:
+        model = runner.run_model(allc, impl)
+    else:
+        broken.append('model/driver not available: ' + '; '.join(st['errors'])[:600])
+    stage_diffs = {}
+    first_diff = None
+    compared = 0
+    for c in allc:
+        r = impl.get(c['id'])
+        if r is None or 'harness_panic' in r:
+            broken.append('harness failed on case %s: %s' % (c['id'], (r or {}).get('harness_panic')))
+            continue
+        if not r.get('lower_idem', True):
+            broken.append('assumption lower_idem violated by std on case %s' % c['id'])
+        m = model.get(c['id'])
+        if m is None:
+            continue
+        compared += 1
+        e2e, loc = runner.compare(c, r, m)
+        diffs = [(s, a, b) for (s, a, b) in loc if s in spec['stages']]
+        if 'norm' in spec['stages']:
+            diffs += [(s, a, b) for (s, a, b) in e2e if s in ('norm', 'panic')]
+        if 'out' in spec['stages'] and not loc and e2e and e2e[0][0] == 'out':
+            diffs.append(e2e[0])
+        if '!CRASH' in m:
+            diffs.append(('driver', '', m['!CRASH']))
+        for s, a, b in diffs:
+            stage_diffs[s] = stage_diffs.get(s, 0) + 1
+            if first_diff is None:
+                first_diff = {'stage': s, 'case': {k: c[k] for k in ('tcs', 'f', 'mr', 'ms') if k in c}, 'implementation': a, 'model': b}
+    if first_diff:
+        broken.append('correspondence broken at stage(s) %s (first: stage %s)' % (sorted(stage_diffs), first_diff['stage']))
+    res['first_diff'] = first_diff
+    res['stats'].update({'compared': compared, 'stage_diffs': stage_diffs})
+    return impl
+
+def distribution(res, allc, impl=None):
+    keys = set(); nontriv = set(); flagc = {}; alph = {}
+    for c in allc:
+        k = case_key(c); keys.add(k)
+        if nontrivial(c): nontriv.add(k)
+        for f in flags_of(c): flagc[f] = flagc.get(f, 0) + 1
+        alph[c.get('alpha', 'corpus')] = alph.get(c.get('alpha', 'corpus'), 0) + 1
+    sc = {}
+    if impl:
+        for c in allc:
+            r = impl.get(c['id'])
+            if r and 'trace' in r:
+                s = runner.selfcheck_of(c, r['trace']) if ('ns' in flags_of(c) and 'ne' in flags_of(c)) else 'n/a'
+                sc[s] = sc.get(s, 0) + 1
+    res['stats'].update({'distinct': len(keys), 'distinct_nontrivial': len(nontriv), 'flags': flagc, 'alphabets': alph, 'selfcheck': sc,
+                         'sizes': {'max_tcs': max([len(c['tcs']) for c in allc] + [0]), 'max_len': max([len(t) for c in allc for t in c['tcs']] + [0])}})
+
+def lines_validation(res, cs, seed):
+    """the Coq model of str::lines against the real function on generated file contents"""
+    rnd = random.Random(seed + 99)
+    texts = []
+    for c in cs[:300]:
+        sep = rnd.choice([[10], [13, 10], [13]])
+        t = []
+        for i, w in enumerate(c['tcs']):
+            t += w + (sep if i + 1 < len(c['tcs']) or rnd.random() < 0.5 else [])
+        texts.append(t)
+    texts += [[], [10], [13, 10], [10, 10], [97, 13], [97, 13, 10, 13, 10], [13]]
+    inp = ("\n".join(json.dumps(t) for t in texts) + "\n").encode()
+    rc, out, err = runner.sh([runner.GREXV, 'lines'], inp=inp)
+    real = [json.loads(l) for l in out.splitlines() if l.startswith('[')]
+    rc2, out2, err2 = runner.sh([runner.DRIVER, '--lines'], inp=("\n".join(",".join(map(str, t)) for t in texts) + "\n").encode())
+    model = []
+    for l in out2.splitlines():
+        model.append([[int(x) for x in w.split(',') if x] for w in l.split(';')] if l != '-' else [])
+    bad = [(t, a, b) for t, a, b in zip(texts, real, model) if a != b]
+    res['stats']['lines_validated'] = len(texts)
+    if rc != 0 or rc2 != 0 or len(real) != len(texts) or len(model) != len(texts):
+        res['broken'].append('str::lines validation could not run (%s / %s)' % (err[-200:], err2[-200:]))
+    elif bad:
+        res['broken'].append('Coq model of str::lines disagrees with Rust on %s: %s vs %s' % bad[0])
+
+HELPERS = {'load_corpus': None, 'correspondence': correspondence, 'distribution': distribution, 'lines_validation': lines_validation}
+
 def run_property(pid, tier, seed):
     spec = PROPS[pid]
     if os.path.isdir(REPLAYS):
@@ -448,6 +537,15 @@ def run_property(pid, tier, seed):
            'st': st, 'samples': [], 'stats': {}}
     if not st['harness_ok']:
         broken.append('implementation does not build with hooks: ' + '; '.join(st['errors'])[:800])
+        return res
+    if spec.get('runner'):
+        import extra
+        HELPERS['load_corpus'] = load_corpus
+        fn = {'c10': extra.run_c10, 'c12': extra.run_c12, 'c14': extra.run_c14, 'c17': extra.run_c17}[spec['runner']]
+        res = fn(pid, spec, res, st, tier, seed, HELPERS)
+        for kf in KNOWN['known']:
+            if pid in kf['properties']:
+                res['known'][kf['id']] = {'still_fails': True, 'what': kf['what'], 'class_failures_in_run': res['stats'].get('known_class_failures', {}).get(kf['id'], 0)}
         return res
     if spec.get('special') == 'c09':
         base, ncorp = select_cases(pid, spec, tier, seed)
